@@ -55,8 +55,7 @@ Check(e) ==
        ELSE ""
      ELSE \* interior point: claims only for OPTIMAL / FEASIBLE answers
        IF e.status = "OPTIMAL" THEN
-            (IF m = 0 \/ n = 0 THEN ""
-             ELSE IF ~e.finite THEN "Point.not_finite"
+            (IF ~e.finite THEN "Point.not_finite"
              ELSE IF e.huge THEN (IF st # "OPTIMAL" THEN "Verdict.OPTIMAL_but_problem_is_" \o st ELSE "Objective.is_not_the_optimum")
              ELSE IF st # "OPTIMAL" THEN "Verdict.OPTIMAL_but_problem_is_" \o st
              ELSE IF PointBad(e.x4, 1) # "" THEN PointBad(e.x4, 1)
